@@ -314,10 +314,9 @@ Lemma fast_result_spec o args wd s :
   op_spec o args = Some s -> fast_args_ok o args -> 0 <= wd ->
   (o = OpNot -> wd <= nth 0 (map snd args) 0) ->
   (o = OpNand -> wd <= Z.max (nth 0 (map snd args) 0) (nth 1 (map snd args) 0)) ->
-  (match o with OpMux | OpConcat | OpSelect _ => fast_elides o (map snd args) wd = true | _ => True end) ->
   fast_result o args wd = Some (s mod 2 ^ wd).
 Proof.
-  intros Hs Hok Hwd Hnot Hnand Htr.
+  intros Hs Hok Hwd Hnot Hnand.
   assert (Hsound := fun e => fast_mask_elision_sound_lemma o args wd e Hok Hwd).
   destruct o; cbn [op_spec] in Hs;
     try (lazymatch type of Hs with Some (concat_spec _) = _ => fail | _ => idtac end;
@@ -338,16 +337,22 @@ Proof.
     + cbn [fast_pymasked fast_simple_masked map fst]. f_equal.
       rewrite Z.land_comm. apply (not_correct (Z.land x y) (Z.max wx wy) wd).
       specialize (Hnand eq_refl). cbn in Hnand. lia.
-  - (* x : never truncating here *) rewrite Htr. cbn [fast_pyexpr fast_simple_func map fst].
-    f_equal. symmetry. apply Z.mod_small. apply Hsound; [exact Htr|reflexivity].
-  - (* c *) rewrite Htr. cbn [fast_pyexpr]. destruct Hok as [Hr _].
+  - (* c *) destruct Hok as [Hr Hrest].
     assert (He : fast_concat args = concat_spec args) by (apply fast_concat_spec; assumption).
-    f_equal. rewrite <- He. symmetry. apply Z.mod_small. apply Hsound; [exact Htr|reflexivity].
-  - (* s *) rewrite Htr. cbn [fast_pyexpr]. destruct Hok as [Hr [_ [_ Hsel]]].
+    destruct (fast_elides _ _ _) eqn:Hel.
+    + cbn [fast_pyexpr]. f_equal. rewrite <- He. symmetry. apply Z.mod_small.
+      apply Hsound; reflexivity.
+    + cbn [fast_pymasked]. unfold masked_chain, fast_mask_parenthesised. f_equal.
+      fold (fast_concat args). rewrite He. apply land_mask_mod. assumption.
+  - (* s *) destruct Hok as [Hr [Hq1 [Hq2 Hsel]]].
     destruct (Hr x wx (or_introl eq_refl)) as [Hw Hx].
     assert (He : fast_select x wx idx = select_spec x idx)
       by (apply fast_select_spec; try assumption; apply (Hsel idx eq_refl)).
-    f_equal. rewrite <- He. symmetry. apply Z.mod_small. apply Hsound; [exact Htr|reflexivity].
+    destruct (fast_elides _ _ _) eqn:Hel.
+    + cbn [fast_pyexpr]. f_equal. rewrite <- He. symmetry. apply Z.mod_small.
+      apply Hsound; reflexivity.
+    + cbn [fast_pymasked]. unfold masked_chain, fast_mask_parenthesised. f_equal.
+      fold (fast_select x wx idx). rewrite He. apply land_mask_mod. assumption.
 Qed.
 
 (* ---- one net of a netlist --------------------------------------------------- *)
@@ -418,7 +423,7 @@ Proof.
     split; [unfold exec_spec; rewrite Eop, Hs; reflexivity|];
     split; [|apply mod_range; assumption];
     unfold fast_exec_v, fast_expr; rewrite Eop; rewrite <- Hav;
-    erewrite fast_result_spec; [reflexivity | exact Hs | | assumption | | | ]).
+    erewrite fast_result_spec; [reflexivity | exact Hs | | assumption | | ]).
   (* the side conditions of fast_result_spec, from op_ok / fast_op_ok / arity *)
   all: try (intros Habs; discriminate Habs).
   all: try exact I.
@@ -659,31 +664,4 @@ Proof.
   apply H.
 Qed.
 
-(* ---- the truncating mux / concat / select defect ------------------------------------
-   A sanity_check-valid net whose destination is narrower than the natural result gets
-   the statement text `dest = mask & <expr>` with <expr> unparenthesised.  Witness: a 1-bit
-   destination of  mux(sel/1, f/4, t/4)  with sel = 1, t = 11. *)
-Definition trunc_mux_nl : netlist :=
-  {| wires := [ mkWire 1 1 KInput; mkWire 2 4 KInput; mkWire 3 4 KInput; mkWire 4 1 KWire ];
-     nets := [ mkNet OpMux [1; 2; 3] 4 ];
-     mems := [] |}.
 
-Definition trunc_mux_ins : wid -> Z := fun w => if w =? 1 then 1 else if w =? 2 then 0 else 11.
-
-Lemma fast_truncating_refuted_lemma :
-  exists nl dflt ins,
-    wfb nl = true /\ legal_ins nl ins
-    /\ fst (fast_step nl dflt (fast_init nl dflt [] []) ins) 4
-       <> fst (step nl dflt (init_state nl dflt [] []) ins) 4.
-Proof.
-  exists trunc_mux_nl, 0, trunc_mux_ins. split; [vm_compute; reflexivity|]. split.
-  - intros w Hw.
-    destruct (Z.eq_dec w 1) as [->|N1]; [vm_compute; split; [discriminate|reflexivity]|].
-    destruct (Z.eq_dec w 2) as [->|N2]; [vm_compute; split; [discriminate|reflexivity]|].
-    destruct (Z.eq_dec w 3) as [->|N3]; [vm_compute; split; [discriminate|reflexivity]|].
-    exfalso. unfold is_input, kind_of, trunc_mux_nl in Hw. cbn [wires find_wire wname wkind] in Hw.
-    replace (1 =? w) with false in Hw by lia. replace (2 =? w) with false in Hw by lia.
-    replace (3 =? w) with false in Hw by lia.
-    destruct (4 =? w); discriminate Hw.
-  - vm_compute. discriminate.
-Qed.
